@@ -445,6 +445,9 @@ func (e *Engine) eqVal(a, b Value) Value {
 		}
 		panic(abort{"slice comparison"})
 	case *Closure:
+		if _, isFn := b.(*ssa.Function); isFn && x == nil {
+			return false
+		}
 		y, _ := b.(*Closure)
 		if x == nil || y == nil {
 			return x == nil && y == nil
@@ -452,6 +455,14 @@ func (e *Engine) eqVal(a, b Value) Value {
 		panic(abort{"func comparison"})
 	case *ErrV:
 		return a == b
+	case *ssa.Function:
+		if y, ok := b.(*Closure); ok && y == nil {
+			return false
+		}
+		if b == nil {
+			return false
+		}
+		panic(abort{"func comparison"})
 	case nil:
 		if y, ok := b.(Iface); ok {
 			return y.T == nil
